@@ -181,6 +181,7 @@ pub fn gen_program(rng: &mut Rng, max_items: usize) -> Prog {
     let negative = if g.rng.chance(1, 12) { Some("org-backward") } else { None };
     let mut neg_done = false;
     let mut big_gaps = 0u32;
+    let mut waiting = [false; 3];
     for i in 0..n_items {
         // segment switch
         if g.rng.chance(1, 4) {
@@ -213,7 +214,7 @@ pub fn gen_program(rng: &mut Rng, max_items: usize) -> Prog {
             };
             let target = cur + gap;
             if target != 0 && !(seg == Seg::Data && ram_used + gap + 12 > g.ram_budget) {
-                if negative.is_some() && !neg_done && cur > 2 && i > n_items / 2 {
+                if negative.is_some() && !neg_done && cur > 2 && i > n_items / 2 && !waiting[idx(seg)] {
                     // .org below the current position (but above zero): must be an error
                     let back = 1 + g.rng.below((cur - 1).min(20) as u64) as u32;
                     let t = cur - back;
@@ -239,6 +240,20 @@ pub fn gen_program(rng: &mut Rng, max_items: usize) -> Prog {
                             let l = g.names.fresh("lbl", g.rng);
                             g.labels.push(l.clone());
                             nodes.push(Node::Label(l));
+                        }
+                        // now and then the other segment gets an origin as well and is left again at once: two
+                        // origins of different segments wait for their first item at the same time
+                        if other != seg && !(other == Seg::Eeprom && !g.has_eeprom) && g.rng.chance(1, 3) {
+                            let ocur = cnt[idx(other)];
+                            let ogap = 1 + g.rng.below(if other == Seg::Data { 4 } else { 30 }) as u32;
+                            if !(other == Seg::Data && ram_used + ogap + 12 > g.ram_budget) {
+                                nodes.push(Node::Org(g.lit((ocur + ogap) as i64)));
+                                cnt[idx(other)] = ocur + ogap;
+                                waiting[idx(other)] = true;
+                                if other == Seg::Data {
+                                    ram_used += ogap;
+                                }
+                            }
                         }
                         if g.rng.chance(1, 3) {
                             nodes.push(Node::Seg(*g.rng.pick(&[Seg::Code, Seg::Data, Seg::Eeprom])));
@@ -266,10 +281,22 @@ pub fn gen_program(rng: &mut Rng, max_items: usize) -> Prog {
             _ => 0,
         };
         cnt[idx(seg)] += size;
+        waiting[idx(seg)] = false;
         if seg == Seg::Data {
             ram_used += size;
         }
         nodes.push(it);
+    }
+    // an origin made on an excursion gets its item in the end (what an origin means behind which nothing is ever
+    // placed is not stated anywhere)
+    if negative.is_none() || !neg_done {
+        for s2 in [Seg::Code, Seg::Data, Seg::Eeprom] {
+            if waiting[idx(s2)] {
+                nodes.push(Node::Seg(s2));
+                let it = g.item(s2);
+                nodes.push(it);
+            }
+        }
     }
     let labels = g.labels.clone();
     patch_label_refs(&mut nodes, &labels, g.rng);
